@@ -89,7 +89,7 @@ def r2_type_tables(chk):
     # the template renders syntax.type through the IR, whose names come from genSimpleSyntax: SMI_TYPES lookup there
     ci = model.cls(ir.INTER, 'IntermediateCodeGen')
     o, fn = ci.find_method('genSimpleSyntax')
-    ok = any(norm(s) == 'objType = self.SMI_TYPES.get(objType, objType)' for s in walk_no_nested(fn)
+    ok = any(common.pmatch(s, '$t = self.SMI_TYPES.get($t, $t)') is not None for s in walk_no_nested(fn)
              if isinstance(s, ast.Assign))
     chk.ob('C16.R2', 'genSimpleSyntax/translates-type-names', ok, where(ci.mod, fn), '')
 
@@ -173,12 +173,12 @@ def r5_apply_table(chk):
         for st in fn.body:
             if isinstance(st, ast.For) and 'constImports' in norm(st.iter):
                 break
-            head.append(norm(st))
+            head.append(common.canon_text(st))
         parts[cname] = head
         p = fn.args.args[1].arg
         rem = [c for c in walk_no_nested(fn) if isinstance(c, ast.Call) and isinstance(c.func, ast.Attribute) and
                c.func.attr == 'remove']
-        ok = len(rem) == 1 and norm(rem[0]) == '%s[d[0]].remove(d[1])' % p
+        ok = len(rem) == 1 and common.pmatch(rem[0], '%s[$d[0]].remove($d[1])' % p) is not None
         chk.ob('C16.R5', '%s.genImports/removes-converted-symbol-only' % cname, ok, where(ci.mod, fn),
                'removal: %s' % [norm(r) for r in rem])
         for x in walk_no_nested(fn):
@@ -205,7 +205,10 @@ def r6_trap(chk):
     chk.doc('C16.R6', 'TRAP-TYPE: OID <enterprise>.0.<n>, class notificationtype, VARIABLES rendered as objects')
     chk.ob('C16.R6', 'genTrapType/class', c.classes == ['notificationtype'], where(model.mod(ir.INTER), c.fn), '%s' % c.classes)
     st = [s for s in c.stores if s.key == ('objects',)]
-    ok = len(st) == 1 and isinstance(st[0].value, ast.ListComp) and norm(st[0].value.generators[0].iter) == 'variables'
+    from rules.C01 import unpack_names
+    un_ = unpack_names(c.fn)
+    ok = len(st) == 1 and isinstance(st[0].value, ast.ListComp) and un_ is not None and \
+        norm(st[0].value.generators[0].iter) == un_[2]
     chk.ob('C16.R6', 'genTrapType/variables-as-objects', ok, where(model.mod(ir.INTER), c.fn), '')
     sym = model.cls(ir.SYMTAB, 'SymtableCodeGen')
     o, f = sym.find_method('genTrapType')
